@@ -54,7 +54,7 @@ theorem C41_range (start stop step iv : Int) (hs : 0 < step) (hi : 0 < iv) :
       · simp [hlt]
       · simp [hlt, grid_of_lt (show stop < start by omega)]
     · intro q hq'
-      obtain ⟨a1, a2, a3, a4⟩ := hq q hq'
+      obtain ⟨a1, a2, a3, a4, _⟩ := hq q hq'
       exact ⟨Int.emod_eq_zero_of_dvd a1, a2, a3, a4⟩
     · intro hle hnil
       subst hnil
